@@ -197,8 +197,11 @@ func (s *Service) refreshValidators(ctx context.Context) error {
 	ctx, span := otel.Tracer("attestantio.vouch.services.accountmanager.wallet").Start(ctx, "refreshValidators")
 	defer span.End()
 
-	accountPubKeys := make([]phase0.BLSPubKey, 0, len(s.accounts))
-	for pubKey := range s.accounts {
+	s.mutex.RLock()
+	accounts := s.accounts
+	s.mutex.RUnlock()
+	accountPubKeys := make([]phase0.BLSPubKey, 0, len(accounts))
+	for pubKey := range accounts {
 		accountPubKeys = append(accountPubKeys, pubKey)
 	}
 	if err := s.validatorsManager.RefreshValidatorsFromBeaconNode(ctx, accountPubKeys); err != nil {
@@ -243,9 +246,12 @@ func (s *Service) accountsForEpochWithFilter(ctx context.Context, epoch phase0.E
 		apiv1.ValidatorStateWithdrawalDone:     0,
 	}
 
+	s.mutex.RLock()
+	accounts := s.accounts
+	s.mutex.RUnlock()
 	validatingAccounts := make(map[phase0.ValidatorIndex]e2wtypes.Account)
-	pubKeys := make([]phase0.BLSPubKey, 0, len(s.accounts))
-	for pubKey := range s.accounts {
+	pubKeys := make([]phase0.BLSPubKey, 0, len(accounts))
+	for pubKey := range accounts {
 		pubKeys = append(pubKeys, pubKey)
 	}
 
@@ -254,7 +260,7 @@ func (s *Service) accountsForEpochWithFilter(ctx context.Context, epoch phase0.E
 		state := apiv1.ValidatorToState(validator, nil, epoch, s.farFutureEpoch)
 		stateCount[state]++
 		if filterFunc(state) {
-			account := s.accounts[validator.PublicKey]
+			account := accounts[validator.PublicKey]
 			s.log.Trace().
 				Str("name", account.Name()).
 				Str("public_key", fmt.Sprintf("%x", account.PublicKey().Marshal())).
@@ -267,7 +273,7 @@ func (s *Service) accountsForEpochWithFilter(ctx context.Context, epoch phase0.E
 
 	// Update metrics if this is the current epoch.
 	if epoch == s.currentEpochProvider.CurrentEpoch() {
-		stateCount[apiv1.ValidatorStateUnknown] += util.IntToUint64(len(s.accounts) - len(validators))
+		stateCount[apiv1.ValidatorStateUnknown] += util.IntToUint64(len(accounts) - len(validators))
 		for state, count := range stateCount {
 			utils.MonitorAccounts(strings.ToLower(state.String()), count)
 		}
@@ -298,9 +304,12 @@ func (s *Service) accountsForEpochByIndexWithFilter(ctx context.Context, epoch p
 	))
 	defer span.End()
 
+	s.mutex.RLock()
+	accounts := s.accounts
+	s.mutex.RUnlock()
 	validatingAccounts := make(map[phase0.ValidatorIndex]e2wtypes.Account)
-	pubKeys := make([]phase0.BLSPubKey, 0, len(s.accounts))
-	for pubKey := range s.accounts {
+	pubKeys := make([]phase0.BLSPubKey, 0, len(accounts))
+	for pubKey := range accounts {
 		pubKeys = append(pubKeys, pubKey)
 	}
 
@@ -315,7 +324,7 @@ func (s *Service) accountsForEpochByIndexWithFilter(ctx context.Context, epoch p
 		}
 		state := apiv1.ValidatorToState(validator, nil, epoch, s.farFutureEpoch)
 		if filterFunc(state) {
-			validatingAccounts[index] = s.accounts[validator.PublicKey]
+			validatingAccounts[index] = accounts[validator.PublicKey]
 		}
 	}
 
